@@ -95,6 +95,13 @@ func cmacMessage(spec blockSpec, key, m []byte, full bool) {
 	cs := map[string]any{"cipher": spec.name, "key_hex": mon.FullHex(key), "msg_hex": mon.FullHex(m)}
 	shape := shapeOf(len(m), bs)
 
+	// every Write takes all it is given (hash.Hash: "It never returns an error"; io.Writer: n == len(p))
+	write := func(h hash.Hash, b []byte) {
+		n, err := h.Write(b)
+		if n != len(b) || err != nil {
+			r.Violation("cmac.Write:return", fmt.Sprintf("Write returned (%d,%v) for %d bytes in the middle of a message", n, err, len(b)), cs)
+		}
+	}
 	// one Write, one Sum
 	libCMAC(blk, "one-shot", cs, func(h hash.Hash) {
 		n, err := h.Write(m)
@@ -130,8 +137,8 @@ func cmacMessage(spec blockSpec, key, m []byte, full bool) {
 	// every 2-way split
 	for c := 0; c <= len(m); c++ {
 		libCMAC(blk, "split", cs, func(h hash.Hash) {
-			h.Write(m[:c])
-			h.Write(m[c:])
+			write(h, m[:c])
+			write(h, m[c:])
 			got := h.Sum(nil)
 			r.Eval(1)
 			if !bytes.Equal(got, want) {
@@ -153,7 +160,7 @@ func cmacMessage(spec blockSpec, key, m []byte, full bool) {
 				badPrefix, first = true, i
 			}
 			if i < len(m) {
-				h.Write(m[i : i+1])
+				write(h, m[i:i+1])
 			}
 		}
 		final := h.Sum(nil)
@@ -178,7 +185,7 @@ func cmacMessage(spec blockSpec, key, m []byte, full bool) {
 			h.Write(bytes.Repeat([]byte{0x5C}, junk))
 			h.Sum(nil)
 			h.Reset()
-			h.Write(m)
+			write(h, m)
 			got := h.Sum(nil)
 			r.Eval(1)
 			if !bytes.Equal(got, want) {
@@ -284,7 +291,9 @@ func cmacWorkload() {
 				case k <= 3:
 					n := []int{0, 1, bs - 1, bs, bs + 1, 2 * bs, rng.IntN(5 * bs)}[rng.IntN(7)]
 					chunk := gen.Bytes(rng, n)
-					h.Write(chunk)
+					if wn, werr := h.Write(chunk); wn != len(chunk) || werr != nil {
+						r.Violation("cmac.Write:return", fmt.Sprintf("after %v Write returned (%d,%v) for %d bytes", trace, wn, werr, len(chunk)), cs)
+					}
 					cur = append(cur, chunk...)
 					trace = append(trace, fmt.Sprintf("W%d", n))
 				case k <= 5:
@@ -322,7 +331,9 @@ func cmacWorkload() {
 		libCMAC(blk, "long", cs, func(h hash.Hash) {
 			for pos := 0; pos < n; {
 				e := min(n, pos+rng.IntN(1+rng.IntN(3000)))
-				h.Write(m[pos:e])
+				if wn, werr := h.Write(m[pos:e]); wn != e-pos || werr != nil {
+					r.Violation("cmac.Write:return", fmt.Sprintf("at offset %d of a long message Write returned (%d,%v) for %d bytes", pos, wn, werr, e-pos), cs)
+				}
 				pos = e
 				if rng.IntN(20) == 0 {
 					h.Sum(nil)
